@@ -251,8 +251,8 @@ ECONF = {
     'folds+':  dict(EBASE, MaxEvents=7, Vs=['long', 'multiline'], Ss=['none', 'folded', 'literal'], Widths=[5], LBs=['n', 'r', 'rn'],
                     FSs=[False]),
     'keys+':   dict(EBASE, MaxEvents=11, CollsAt='"key"', AAs=[], FSs=[False, True], CAs=['', 'a1'], CTs=['', 'local']),
-    'keytags+': dict(EBASE, MaxEvents=10, CollsAt='"key"', AAs=[], Vs=['word', 'empty'], STs=['', 'core', 'local'], SIs=['tf', 'ff', 'tt'],
-                     CTs=['', 'local', 'core'], CIs=[True, False], CAs=['', 'a1']),
+    'keytags+': dict(EBASE, MaxEvents=9, CollsAt='"key"', AAs=[], Vs=['word', 'empty'], STs=['', 'core', 'local'], SIs=['tf', 'ff'],
+                     CTs=['', 'local', 'core'], CIs=[True, False], FSs=[False, True]),
     'any+':    dict(EBASE, Mode='"any"', MaxEvents=6, MaxDocs=6, SIs=['tf', 'ff'], AAs=['a1', ''], DVs=['', '2.0'],
                     DTs=['', 'badh'], FSs=[False]),
 }
@@ -519,7 +519,7 @@ def main(tier, replay=None):
     parts = os.environ.get('C05_PARTS', 'ABC')
     jobs = (scalar_jobs(tier, fix) if 'A' in parts else []) + (emitter_jobs(tier, fix) if 'B' in parts else [])
     # heaviest first; the searches are small, JVM start dominates: run them side by side
-    results = ep.run_tlc_many(jobs, parallel=4 if tier == 'quick' else 3, workers=4 if tier == 'quick' else 5)
+    results = ep.run_tlc_many(jobs, parallel=5 if tier == 'quick' else 3, workers=4 if tier == 'quick' else 5)
     _t('tlc x%d' % len(jobs))
     pending = []
     run_scalars(v, tier, results, acc, pending)
